@@ -224,7 +224,7 @@ class DefGen:
         return defs
 
 
-def systematic():
+def systematic(thorough=False):
     """One definition per primitive type enumerating tagging x ignorable x default x nullability
     (the product the random generator only samples), plus struct/array variants."""
     defs = []
@@ -321,6 +321,42 @@ def systematic():
                 defs.append({"apiKey": key, "type": ty, "name": f"{stem}Flex{j}{ty.capitalize()}", "validVersions": "0-2",
                              "flexibleVersions": flexv, "fields": [{"name": "Anchor", "type": "int32", "versions": "0+"},
                                                                    {"name": "Name", "type": "string", "versions": "1+"}]})
+    # the naming convention on EVERY kind of field: names whose snake-case form shadows a Python builtin get a trailing
+    # underscore whether the field is a primitive, an entity type, an array, an inline struct, an array of inline structs,
+    # or a (single / array) reference to a common struct - each kind is rendered by its own piece of the generator
+    BUILTINISH = ["Id", "Type", "Max", "Min", "Hash", "Format", "Filter", "Range", "Bytes", "Str", "Len", "Next", "Input",
+                  "Object", "All", "Any", "Set", "List", "Map", "Iter", "Open", "Property", "Super", "Vars", "Zip", "Sum",
+                  "Slice", "Sorted", "Reversed", "Round", "Repr", "Pow", "Int", "Float", "Bool", "Dict", "Dir", "Abs", "Tuple",
+                  "Exit", "Compile", "Credits", "License", "Help", "Copyright", "Quit", "Eval", "Exec", "Ascii", "Callable"]
+    # (every case of the wire comparison carries its whole definition: the list is kept short)
+    BUILTINISH = BUILTINISH[:4] + ["Range", "Next", "Input", "Object"] + (BUILTINISH[4:7] + ["Set", "Map", "Exit", "Help", "Callable"] if thorough else [])
+    anchor = {"name": "Anchor", "type": "int32", "versions": "0+"}
+    holders = []
+    for kind in ("prim", "entity", "primarr", "struct", "structarr", "common", "commonarr"):
+        fs = [dict(anchor)]
+        for b in BUILTINISH:
+            f = {"name": b, "versions": "0+"}
+            if kind == "prim":
+                f["type"] = "int32"
+            elif kind == "entity":
+                f["type"], f["entityType"] = "int32", "brokerId"
+            elif kind == "primarr":
+                f["type"] = "[]string"
+            elif kind in ("struct", "structarr"):
+                f["type"] = ("[]" if kind == "structarr" else "") + f"{b}Of{kind.capitalize()}"
+                f["fields"] = [dict(anchor), {"name": b, "type": "int16", "versions": "1+"}]
+            else:
+                f["type"] = ("[]" if kind == "commonarr" else "") + ("SysCursor" if len(b) % 2 else "SysOffsetRange")
+            fs.append(f)
+        holders.append({"name": f"Holder{kind.capitalize()}", "type": f"Holder{kind.capitalize()}Struct", "versions": "0+", "fields": fs})
+    sys_commons = [{"name": "SysCursor", "versions": "0+", "fields": [dict(anchor), {"name": "Next", "type": "int64", "versions": "0+"}]},
+                   {"name": "SysOffsetRange", "versions": "0+", "fields": [dict(anchor), {"name": "Range", "type": "SysCursor", "versions": "0+"},
+                                                                        {"name": "Max", "type": "[]SysCursor", "versions": "1+"}]}]
+    for ty in ("request", "response"):
+        defs.append({"apiKey": 2101, "type": ty, "name": f"SysBuiltinNames{ty.capitalize()}", "validVersions": "0-2", "flexibleVersions": "1+",
+                     "commonStructs": sys_commons,
+                     "fields": [dict(anchor)] + holders + [{"name": "Next", "type": "SysCursor", "versions": "0+"},
+                                                           {"name": "Filter", "type": "[]SysOffsetRange", "versions": "0+"}]})
     defs.append({"apiKey": 2100, "type": "response", "name": "SysDefaultedStructsResponse", "validVersions": "0-3", "flexibleVersions": "2+",
                  "fields": [{"name": "ErrorCode", "type": "int16", "versions": "0+"}] + df})
     defs.append({"apiKey": 2100, "type": "request", "name": "SysDefaultedStructsRequest", "validVersions": "0-3", "flexibleVersions": "2+",
